@@ -55,6 +55,7 @@ MODE_DEPS = {
 }
 
 
+
 def _dep_hash(mode, ver, args):
     h = hashlib.sha1()
     files = ["oracle/ref_main.py", "gen/canon.py", "gen/mdis.py"] + MODE_DEPS.get(mode, [])
